@@ -1,6 +1,6 @@
 SPECIFICATION Spec
 CONSTANTS
   MaxN = 4
-INVARIANTS ControlLast ErrorMeansAbsent RemoveLast SuccessPost FailureReported Confined
+INVARIANTS ControlLast ErrorMeansAbsent RemoveLast SuccessPost FailureReported Confined DestFileRefused
 PROPERTY Terminates
 CHECK_DEADLOCK FALSE
